@@ -1599,8 +1599,14 @@ impl DnsOutPacket {
 
         // Write each label
         for (i, label) in labels.iter().enumerate() {
-            // Build the remaining name for compression (with dots as separators)
-            let remaining: String = labels[i..].join(".");
+            // Build the remaining name for compression (with dots as separators).
+            // Dots and backslashes inside a label are escaped again, otherwise a
+            // label "a.b" and two labels "a", "b" would share one table entry.
+            let remaining: String = labels[i..]
+                .iter()
+                .map(|label| label.replace('\\', "\\\\").replace('.', "\\."))
+                .collect::<Vec<_>>()
+                .join(".");
 
             // Check if we can use compression for the remaining part
             const POINTER_MASK: u16 = 0xC000;
